@@ -295,6 +295,10 @@ def classContains (E : Env) (c : ClassDesc) (rn : Rune) : Bool :=
     || c.ranges.any (fun (lo, hi) => lo ≤ cur && cur ≤ hi)
     || c.classes.any (fun (_, tab) => inRangeTable tab cur)
 
+/-- `isLeftRecursion := p.rstack[len(p.rstack)-1].leftRecursive` (LeftRecursion template only) -/
+def topIsLR (E : Env) (s : PState) : Bool :=
+  E.flags.leftRec && (match s.rstack with | [] => false | r :: _ => r.leftRecursive)
+
 /-! ### the interpreter -/
 
 section
@@ -303,8 +307,7 @@ variable (E : Env) (rec : Expr → PState → Outcome)
 /-- `parseExprWrap` -/
 def parseExprWrap (e : Expr) (s : PState) : Outcome :=
   if E.flags.optimize then rec e s else
-  let isLR := E.flags.leftRec && (match s.rstack with | [] => false | r :: _ => r.leftRecursive)
-  if E.opts.memoize && !isLR then
+  if E.opts.memoize && !topIsLR E s then
     match getMemoized s (.expr e.id) with
     | some res => .done res.v res.b (restore s res.end)
     | none =>
@@ -339,11 +342,13 @@ def parseLoop (e : Expr) : Nat → PState → List Val → Outcome
       else if acc.isEmpty then .done .nil false s2   -- interpreted by the caller
       else .done (.list acc.reverse) true s2
 
+/-- the current rune as `parseLitMatcher` compares it -/
+def litCur (ic : Bool) (s : PState) : Rune := if ic then E.toLower s.pt.rn else s.pt.rn
+
 def parseLit (start : Savepoint) (want : String) (ic : Bool) : List Rune → PState → Outcome
   | [], s => .done (.bytes (sliceFrom E s start)) true (failAt s true start.pos want)
   | r :: rs, s =>
-    let cur := if ic then E.toLower s.pt.rn else s.pt.rn
-    if cur ≠ r then .done .nil false (restore (failAt s false start.pos want) start)
+    if litCur E ic s ≠ r then .done .nil false (restore (failAt s false start.pos want) start)
     else parseLit start want ic rs (read E s)
 
 def parseThrow (label : String) : List (List (String × Expr)) → PState → Outcome
@@ -430,90 +435,120 @@ def parseCharClass (c : ClassDesc) (s : PState) : Outcome :=
   else if classContains E c cur != c.inverted then matchOne E s c.val
   else .done .nil false (failAt s false start.pos c.val)
 
-/-- one level of `parseExpr`: budget, dispatch, and the 18 `parse…Expr` bodies.
-    `loopFuel` bounds the iterations of loops started at this level. -/
-def parseExprStep (loopFuel : Nat) (e : Expr) (s0 : PState) : Outcome :=
-  let s := { s0 with exprCnt := s0.exprCnt + 1 }
-  if (match E.opts.maxExpr with | some n => decide (s.exprCnt > n) | none => false) then
-    .panic (.err errMaxExprCnt) s
-  else
+/-- what the three kinds of predicate/state blocks share: call, panic, error -/
+def runCodeBlock (blk : Nat) (s : PState) (k : BlockResult → PState → Outcome) : Outcome :=
+  let (r, s1) := callBlock E blk s
+  match r.panic with
+  | some p => .panic p s1
+  | none => k r (match r.err with | some m => addErr E s1 m | none => s1)
+
+/-- `parseActionExpr` -/
+def parseAction (blk : Nat) (e1 : Expr) (s : PState) : Outcome :=
+  let start := s.pt
+  (parseExprWrap E rec e1 s).bind fun v ok s1 =>
+    if ok then
+      let s2 := { s1 with curPos := start.pos, curText := sliceFrom E s1 start }
+      let saved := s2.state
+      let (r, s3) := callBlock E blk s2
+      match r.panic with
+      | some p => .panic p s3
+      | none =>
+        let s4 := match r.err with
+          | some m => addErrAt E s3 m start.pos
+          | none => s3
+        .done r.ret true (restoreState E s4 saved)
+    else .done v false s1
+
+/-- `parseAndCodeExpr` -/
+def parseAndCode (blk : Nat) (s : PState) : Outcome :=
+  runCodeBlock E blk s fun r s2 => .done .nil r.retB (restoreState E s2 s.state)
+
+/-- `parseNotCodeExpr` -/
+def parseNotCode (blk : Nat) (s : PState) : Outcome :=
+  runCodeBlock E blk s fun r s2 => .done .nil (!r.retB) (restoreState E s2 s.state)
+
+/-- `parseStateCodeExpr` (the node type only exists in variants with a state store) -/
+def parseStateCode (blk : Nat) (s : PState) : Outcome :=
+  if !E.useState then .panic (.str "unknown expression type *main.stateCodeExpr") s else
+  runCodeBlock E blk s fun _ s2 => .done .nil true s2
+
+/-- `parseAndExpr` -/
+def parseAnd (e1 : Expr) (s : PState) : Outcome :=
+  (parseExprWrap E rec e1 (pushV s)).bind fun _ ok s1 =>
+    .done .nil ok (restore (restoreState E (popV s1) s.state) s.pt)
+
+/-- `parseNotExpr` -/
+def parseNot (e1 : Expr) (s : PState) : Outcome :=
+  (parseExprWrap E rec e1 { pushV s with maxFailInvert := !s.maxFailInvert }).bind fun _ ok s1 =>
+    let s2 := popV { s1 with maxFailInvert := !s1.maxFailInvert }
+    .done .nil (!ok) (restore (restoreState E s2 s.state) s.pt)
+
+/-- `parseAnyMatcher` -/
+def parseAny (s : PState) : Outcome :=
+  if s.pt.rn = runeError && s.pt.w = 0 then .done .nil false (failAt s false s.pt.pos ".")
+  else matchOne E s "."
+
+/-- `parseLabeledExpr` -/
+def parseLabeled (label : String) (e1 : Expr) (s : PState) : Outcome :=
+  (parseExprWrap E rec e1 (pushV s)).bind fun v ok s1 =>
+    let s2 := popV s1
+    .done v ok (if ok && label ≠ "" then setLabel s2 label v else s2)
+
+/-- `parseZeroOrMoreExpr` -/
+def parseZeroOrMore (loopFuel : Nat) (e1 : Expr) (s : PState) : Outcome :=
+  (parseLoop E rec e1 loopFuel s []).bind fun v ok s1 =>
+    if ok then .done v true s1 else .done (.list []) true s1
+
+/-- `parseZeroOrOneExpr` -/
+def parseZeroOrOne (e1 : Expr) (s : PState) : Outcome :=
+  (parseExprWrap E rec e1 (pushV s)).bind fun v _ s1 => .done v true (popV s1)
+
+/-- `parseRecoveryExpr` -/
+def parseRecovery (e1 r : Expr) (labels : List String) (s : PState) : Outcome :=
+  (parseExprWrap E rec e1 (pushRecovery s labels r)).bind fun v ok s1 => .done v ok (popRecovery s1)
+
+/-- `parseRuleRefExpr` -/
+def parseRuleRef (loopFuel : Nat) (name : String) (s : PState) : Outcome :=
+  if name = "" then .panic (.str "invalid rule: missing name") s else
+  match E.findRule name with
+  | none => .done .nil false (addErr E s ("undefined rule: " ++ name))
+  | some r => parseRuleWrap E rec loopFuel r s
+
+/-- the type switch of `parseExpr`. `loopFuel` bounds the iterations of loops started here. -/
+def parseExprBody (loopFuel : Nat) (e : Expr) (s : PState) : Outcome :=
   match e with
-  | .action _ blk e1 =>
-    let start := s.pt
-    (parseExprWrap E rec e1 s).bind fun v ok s1 =>
-      if ok then
-        let s2 := { s1 with curPos := start.pos, curText := sliceFrom E s1 start }
-        let saved := s2.state
-        let (r, s3) := callBlock E blk s2
-        match r.panic with
-        | some p => .panic p s3
-        | none =>
-          let s4 := match r.err with
-            | some m => addErrAt E s3 m start.pos
-            | none => s3
-          .done r.ret true (restoreState E s4 saved)
-      else .done v false s1
-  | .andCode _ blk =>
-    let saved := s.state
-    let (r, s1) := callBlock E blk s
-    match r.panic with
-    | some p => .panic p s1
-    | none =>
-      let s2 := match r.err with | some m => addErr E s1 m | none => s1
-      .done .nil r.retB (restoreState E s2 saved)
-  | .notCode _ blk =>
-    let saved := s.state
-    let (r, s1) := callBlock E blk s
-    match r.panic with
-    | some p => .panic p s1
-    | none =>
-      let s2 := match r.err with | some m => addErr E s1 m | none => s1
-      .done .nil (!r.retB) (restoreState E s2 saved)
-  | .stateCode _ blk =>
-    if !E.useState then .panic (.str "unknown expression type *main.stateCodeExpr") s else
-    let (r, s1) := callBlock E blk s
-    match r.panic with
-    | some p => .panic p s1
-    | none =>
-      let s2 := match r.err with | some m => addErr E s1 m | none => s1
-      .done .nil true s2
-  | .and _ e1 =>
-    let pt := s.pt
-    let saved := s.state
-    (parseExprWrap E rec e1 (pushV s)).bind fun _ ok s1 =>
-      .done .nil ok (restore (restoreState E (popV s1) saved) pt)
-  | .not _ e1 =>
-    let pt := s.pt
-    let saved := s.state
-    (parseExprWrap E rec e1 { pushV s with maxFailInvert := !s.maxFailInvert }).bind fun _ ok s1 =>
-      let s2 := popV { s1 with maxFailInvert := !s1.maxFailInvert }
-      .done .nil (!ok) (restore (restoreState E s2 saved) pt)
-  | .any _ =>
-    if s.pt.rn = runeError && s.pt.w = 0 then .done .nil false (failAt s false s.pt.pos ".")
-    else matchOne E s "."
+  | .action _ blk e1 => parseAction E rec blk e1 s
+  | .andCode _ blk => parseAndCode E blk s
+  | .notCode _ blk => parseNotCode E blk s
+  | .stateCode _ blk => parseStateCode E blk s
+  | .and _ e1 => parseAnd E rec e1 s
+  | .not _ e1 => parseNot E rec e1 s
+  | .any _ => parseAny E s
   | .cls _ c => parseCharClass E c s
   | .choice _ line col alts => parseChoice E rec line col alts 0 s
-  | .labeled _ label e1 =>
-    (parseExprWrap E rec e1 (pushV s)).bind fun v ok s1 =>
-      let s2 := popV s1
-      .done v ok (if ok && label ≠ "" then setLabel s2 label v else s2)
+  | .labeled _ label e1 => parseLabeled E rec label e1 s
   | .lit _ val ic want => parseLit E s.pt want ic val s
   | .oneOrMore _ e1 => parseLoop E rec e1 loopFuel s []
-  | .zeroOrMore _ e1 =>
-    (parseLoop E rec e1 loopFuel s []).bind fun v ok s1 =>
-      if ok then .done v true s1 else .done (.list []) true s1
-  | .zeroOrOne _ e1 =>
-    (parseExprWrap E rec e1 (pushV s)).bind fun v _ s1 => .done v true (popV s1)
-  | .recovery _ e1 r labels =>
-    (parseExprWrap E rec e1 (pushRecovery s labels r)).bind fun v ok s1 =>
-      .done v ok (popRecovery s1)
-  | .ruleRef _ name =>
-    if name = "" then .panic (.str "invalid rule: missing name") s else
-    match E.findRule name with
-    | none => .done .nil false (addErr E s ("undefined rule: " ++ name))
-    | some r => parseRuleWrap E rec loopFuel r s
+  | .zeroOrMore _ e1 => parseZeroOrMore E rec loopFuel e1 s
+  | .zeroOrOne _ e1 => parseZeroOrOne E rec e1 s
+  | .recovery _ e1 r labels => parseRecovery E rec e1 r labels s
+  | .ruleRef _ name => parseRuleRef E rec loopFuel name s
   | .seq _ es => parseSeq E rec s.pt s.state es s []
   | .throw _ label => parseThrow E rec label s.recoveryStack s
+
+/-- `p.ExprCnt++` -/
+def bump (s : PState) : PState := { s with exprCnt := s.exprCnt + 1 }
+
+/-- `p.ExprCnt > p.maxExprCnt` -/
+def overBudget (s : PState) : Bool :=
+  match E.opts.maxExpr with
+  | some n => decide (s.exprCnt > n)
+  | none => false
+
+/-- one level of `parseExpr`: budget, then dispatch -/
+def parseExprStep (loopFuel : Nat) (e : Expr) (s0 : PState) : Outcome :=
+  if overBudget E (bump s0) then .panic (.err errMaxExprCnt) (bump s0)
+  else parseExprBody E rec loopFuel e (bump s0)
 
 end
 
